@@ -1,4 +1,5 @@
 #include "core.hpp"
+#include <cxxabi.h>
 
 #include <atomic>
 #include <csignal>
@@ -359,7 +360,15 @@ static void worker_main(
         }
         catch (const std::exception& e)
         {
-            em.emit(std::string("{\"harness_exception\":") + Json(std::string(e.what())).dump(0) + "}");
+            // an exception nobody in the check expected. If its type is one the library (or its SQLite wrapper) throws, the
+            // library has refused or failed something that succeeds on a tree where the property holds: reported as a
+            // violation by the parent, not as a harness failure.
+            int st = 0;
+            char* dn = abi::__cxa_demangle(typeid(e).name(), nullptr, nullptr, &st);
+            std::string tn = dn && st == 0 ? dn : typeid(e).name();
+            free(dn);
+            em.emit(std::string("{\"harness_exception\":") + Json(std::string(e.what())).dump(0) + ",\"type\":" + Json(tn).dump(0) + ",\"task\":" + std::to_string((long long)i) +
+                    ",\"label\":" + Json(std::string(sh->label[w])).dump(0) + "}");
         }
         alarm(0);
         em.emit(std::string("#done"));
